@@ -14,7 +14,7 @@ let bits_of_bytes (bytes : int list) : bool list =
       | Some v -> (v lsr bit) land 1 = 1
       | None -> false)
 
-let parse_sack s : sack option =
+let parse_sack s : sackbits option =
   if s = "-" then None else
   let n = String.length s / 2 in
   let bytes = List.init n (fun i -> int_of_string ("0x" ^ String.sub s (2 * i) 2)) in
